@@ -24,8 +24,14 @@ SameOutcome(a, b) == a.data = b.data /\ NulledPositions(a) = NulledPositions(b)
 RootKeys(c) == LET R == [schema |-> c.schema, doc |-> c.doc, vals |-> CoerceVars(c.doc.vardefs, c.vars, <<>>).vals]
                IN Keys(Collect(R, c.doc.sel, c.schema.query), {})
 Idx(keys, k) == IF \E j \in 1..Len(keys) : keys[j] = k THEN CHOOSE j \in 1..Len(keys) : keys[j] = k ELSE 0
-SerialOK(c) == LET keys == RootKeys(c) IN
-               \A p, q \in 1..Len(c.log) : p < q => Idx(keys, c.log[p]) <= Idx(keys, c.log[q])
+\* c.log: entries [r, e, at, rat] recorded when a resolver (at position rat) below root field r was invoked while a resolver / list
+\* awaitable at response position `at` below another root field e was still pending and not cancelled. Serial
+\* execution forbids this - unless that awaitable, or the invoked resolver, is orphaned work: its position lies at or below a position that
+\* is null in the response (a failed subtree whose siblings are settled in the background).
+\* (Awaitable is_type_of / resolve_type results are not recorded: the default type resolver legitimately leaves
+\* the checks of the remaining possible types running once one type matched.)
+Orphaned(c, at) == c.response.data = Null \/ LET w == W!Walk(c.response.data, at) IN ~w.found \/ w.stoppedAtNull \/ w.v = Null
+SerialOK(c) == \A p \in 1..Len(c.log) : c.log[p].r = c.log[p].e \/ Orphaned(c, c.log[p].at) \/ Orphaned(c, c.log[p].rat)
 
 Clause(c) ==
   LET r == Execute(c) IN
